@@ -250,4 +250,80 @@ theorem entryOf_vs_fieldChain (attrs : List Field) (e0 : Eff) (c : Cls) (he : e0
       rw [h1, ← he, h2]
       exact ⟨rfl, h, rfl, h3 f hf⟩
 
+/-! ### hook selection does not look at the hook objects -/
+
+/-- replace every user hook object by another one (`ρ` on identities) -/
+def Setter.rename (ρ : Nat → Nat) : Setter → Setter
+  | .user i => .user (ρ i)
+  | s => s
+
+def FieldOn.rename (ρ : Nat → Nat) : FieldOn → FieldOn
+  | .chain l => .chain (l.map (Setter.rename ρ))
+  | x => x
+
+def Field.rename (ρ : Nat → Nat) (f : Field) : Field := { f with onSet := f.onSet.rename ρ }
+
+def Eff.rename (ρ : Nat → Nat) : Eff → Eff
+  | .bare s => .bare (s.rename ρ)
+  | .list l => .list (l.map (Setter.rename ρ))
+  | e => e
+
+def Entry.rename (ρ : Nat → Nat) (x : Entry) : Entry :=
+  { field := x.field.rename ρ, hook := x.hook.map (Setter.rename ρ) }
+
+theorem anyValidator_rename (ρ : Nat → Nat) (attrs : List Field) :
+    anyValidator (attrs.map (Field.rename ρ)) = anyValidator attrs := by
+  unfold anyValidator; rw [List.any_map]; rfl
+
+theorem anyConverter_rename (ρ : Nat → Nat) (attrs : List Field) :
+    anyConverter (attrs.map (Field.rename ρ)) = anyConverter attrs := by
+  unfold anyConverter; rw [List.any_map]; rfl
+
+theorem normalise_rename (ρ : Nat → Nat) (attrs : List Field) (e : Eff) :
+    normalise (attrs.map (Field.rename ρ)) (e.rename ρ) = (normalise attrs e).rename ρ := by
+  cases e with
+  | none => rfl
+  | noop => rfl
+  | list l => rfl
+  | dflt =>
+    simp only [Eff.rename, normalise, anyValidator_rename, anyConverter_rename]
+    split <;> rfl
+  | bare s =>
+    cases s with
+    | user i => rfl
+    | frozen => rfl
+    | validate =>
+      simp only [Eff.rename, Setter.rename, normalise, anyValidator_rename]
+      split <;> rfl
+    | convert =>
+      simp only [Eff.rename, Setter.rename, normalise, anyConverter_rename]
+      split <;> rfl
+
+theorem chain_rename (ρ : Nat → Nat) (e : Eff) :
+    (e.rename ρ).chain = e.chain.map (fun l => l.map (Setter.rename ρ)) := by
+  cases e <;> rfl
+
+theorem entryOf_rename (ρ : Nat → Nat) (e : Eff) (a : Field) :
+    entryOf (e.rename ρ) (a.rename ρ) = (entryOf e a).map (Entry.rename ρ) := by
+  unfold entryOf
+  cases h : a.onSet with
+  | chain l => simp [Field.rename, FieldOn.rename, h, Entry.rename]
+  | noop => simp [Field.rename, FieldOn.rename, h]
+  | unset =>
+    simp only [Field.rename, FieldOn.rename, h, chain_rename]
+    cases e.chain with
+    | none => rfl
+    | some l => simp [Entry.rename, Field.rename, FieldOn.rename, h]
+
+theorem saAttrs_rename (ρ : Nat → Nat) (attrs : List Field) (e : Eff) :
+    saAttrs (attrs.map (Field.rename ρ)) (e.rename ρ) = (saAttrs attrs e).map (Entry.rename ρ) := by
+  rw [saAttrs_eq, saAttrs_eq]
+  induction attrs with
+  | nil => rfl
+  | cons a rest ih =>
+    simp only [List.map_cons, List.filterMap_cons, entryOf_rename]
+    cases entryOf e a with
+    | none => simpa using ih
+    | some x => simpa using ih
+
 end Attrs.C06
